@@ -100,13 +100,14 @@ def p1_promote_law(F, r):
         v = oe.NONE if viol is None else oe.some(("agg", "vrp_core::models::goal::ConstraintViolation#ConstraintViolation", {"code": oe.sym(tag + "_code"), "stopped": ("bool", viol)}))
         return ("agg", MC + "#MultiContext", {"violation": v, "start_index": oe.sym(tag + "_si"), "next_index": oe.sym(tag + "_ni"),
                                              "cost": (oe.some(oe.sym(tag + "_cost")) if cost else oe.NONE), "activities": oe.sym(tag + "_acts")})
+    helpers = {i for i, f in F.fns.items() if i.startswith(MC + "::") and f["kind"] != "Closure" and "::promoted[" not in i and i != pr}     # e.g. an extracted select_best
     for lc in (0, 1):
         for rc in (0, 1):
             for lv in (None, False, True):
                 for rv in (None, False, True):
                     if (lc and lv is not None) or (rc and rv is not None):
                         continue       # a candidate with a cost carries no violation
-                    it = oe.Interp(F, pr, {1: mc("l", lc, lv), 2: mc("r", rc, rv)}, fresh=True, enum_results=True)
+                    it = oe.Interp(F, pr, {1: mc("l", lc, lv), 2: mc("r", rc, rv)}, fresh=True, enum_results=True, inline=helpers)
                     inst0 = f"promote [left cost={'Some' if lc else 'None'}{'' if lv is None else ',viol'+('!' if lv else '')}; right cost={'Some' if rc else 'None'}{'' if rv is None else ',viol'+('!' if rv else '')}]"
                     try:
                         paths = it.explore()
